@@ -414,6 +414,35 @@ func genHSLocked(r *common.Rand) string {
 	return fmt.Sprintf("hs %d %d %d %d 0 %d 1000000 1000 %s", m, w, b, p, common.Pick(r, []int{2, 1000}), strings.Join(tl.evs, " "))
 }
 
+// Exhaustive small scope: every sequence of `n` steps over the given alphabet, each step followed by
+// a gap of 0 or 2 grid points (the gap crosses the 30 ms ban / entry life time; two gaps leave the
+// 50 ms window), closed by a query now and a query two grid points later.  This enumerates every
+// placement of the delayed unban / removal steps and clean-ups relative to failures, expiry and re-ban.
+func exhaustive(prefix string, alphabet []string, closing string, n int) []string {
+	var out []string
+	var rec func(depth int, tl tlb)
+	rec = func(depth int, tl tlb) {
+		if depth == n {
+			t2 := tlb{t: tl.t, evs: append([]string{}, tl.evs...)}
+			t2.add(closing)
+			t2.adv(2)
+			t2.add(closing)
+			out = append(out, prefix+strings.Join(t2.evs, " "))
+			return
+		}
+		for _, op := range alphabet {
+			for _, gap := range []int{0, 2} {
+				t2 := tlb{t: tl.t, evs: append([]string{}, tl.evs...)}
+				t2.add(op)
+				t2.adv(gap)
+				rec(depth+1, t2)
+			}
+		}
+	}
+	rec(0, tlb{t: tick})
+	return out
+}
+
 func generate(r *common.Rand, tier string) []job {
 	mult := 1
 	if tier == "thorough" {
@@ -424,6 +453,17 @@ func generate(r *common.Rand, tier string) []job {
 		for i := 0; i < n*mult; i++ {
 			jobs = append(jobs, job{"", g(r), kind})
 		}
+	}
+	depth := 3
+	if tier == "thorough" {
+		depth = 4
+	}
+	ip := fmt.Sprint(addrs[0])
+	for _, c := range exhaustive("bf 1 50 30 3 ", []string{"f:" + ip, "q:" + ip, "s:" + ip, "u:" + ip, "c"}, "q:"+ip, depth) {
+		jobs = append(jobs, job{"", c, "bf-exhaustive"})
+	}
+	for _, c := range exhaustive("ip ", []string{"ab:" + ip + "/x:30", "ab:167772160/8:0", "rb:167772160/8", "ar:" + ip, "c", "al:" + ip}, "al:"+ip, depth) {
+		jobs = append(jobs, job{"", c, "ip-exhaustive"})
 	}
 	add(260, "bf-random", genBFRandom)
 	add(120, "bf-expiry", genBFExpiry)
